@@ -32,36 +32,37 @@ impl LazyClient {
 
     /// Ensures the connection is initialised and ready to handle events.
     pub async fn get_or_init(&self) -> Result<&Mutex<SendRequest<Body>>, Error> {
-        if let Some(existing) = self.client.get() {
-            return Ok(existing);
-        }
+        // Concurrent first users of one client wait for a single connection attempt
+        // rather than each connecting and racing to fill the cell.
+        self.client
+            .get_or_try_init(|| async {
+                let io = timeout(
+                    Duration::from_secs(2),
+                    turmoil::net::TcpStream::connect(self.addr),
+                )
+                .await
+                .map_err(|_| {
+                    Error::Io(io::Error::new(
+                        ErrorKind::TimedOut,
+                        "Failed to connect within deadline",
+                    ))
+                })??;
 
-        let io = timeout(
-            Duration::from_secs(2),
-            turmoil::net::TcpStream::connect(self.addr),
-        )
-        .await
-        .map_err(|_| {
-            Error::Io(io::Error::new(
-                ErrorKind::TimedOut,
-                "Failed to connect within deadline",
-            ))
-        })??;
+                let (sender, connection) = hyper::client::conn::Builder::new()
+                    .http2_keep_alive_while_idle(true)
+                    .http2_only(true)
+                    .http2_adaptive_window(true)
+                    .handshake(io)
+                    .await?;
 
-        let (sender, connection) = hyper::client::conn::Builder::new()
-            .http2_keep_alive_while_idle(true)
-            .http2_only(true)
-            .http2_adaptive_window(true)
-            .handshake(io)
-            .await?;
+                tokio::spawn(async move {
+                    if let Err(e) = connection.await {
+                        error!(error = ?e, "Error in client connection");
+                    }
+                });
 
-        tokio::spawn(async move {
-            if let Err(e) = connection.await {
-                error!(error = ?e, "Error in client connection");
-            }
-        });
-
-        self.client.set(Mutex::new(sender)).unwrap();
-        Ok(self.client.get().unwrap())
+                Ok::<_, Error>(Mutex::new(sender))
+            })
+            .await
     }
 }
